@@ -319,11 +319,16 @@ def _run_whitelist_lookalike(ctx, case) -> F.Outcome:
     zd = Z.make_zdir({wl_path: BROKEN, new_path: CLEAN, "good.zo": "# g\n\n- 240103#0C good\n"})
     try:
         r = Z.db_create(zd, day, force=True)  # whitelists wl_path only
-        if not Z.cli_ok(r):
-            raise H.HarnessError("whitelist setup failed: " + r.err[-300:])
-        wl = (zd / ".zorg" / "error_file_whitelist.txt").read_text().split("\n")
-        if wl != [wl_path]:
-            raise H.HarnessError(f"unexpected whitelist after setup: {wl}")
+        wlf = zd / ".zorg" / "error_file_whitelist.txt"
+        wl = wlf.read_text().split("\n") if wlf.exists() else None
+        if not Z.cli_ok(r) or wl != [wl_path]:
+            # `db create -f` on a directory with exactly one broken page must succeed and
+            # whitelist exactly that page
+            out.ok = False
+            out.sig = "command:force-create-did-not-whitelist-exactly-the-broken-page"
+            out.detail = {"broken_page": wl_path, "whitelist": wl, "exit_ok": Z.cli_ok(r), "stderr": r.err[-300:]}
+            out.obs = H.digest([Z.cli_ok(r), wl])
+            return out
         (zd / new_path).write_text(BROKEN.replace("0A", "0D"))
         r = Z.db_create(zd, day) if mode == "create" else Z.db_reindex(zd, day)
         idx = IR.read_index(zd)
@@ -358,8 +363,13 @@ def _run_whitelist_lifecycle(ctx, case) -> F.Outcome:
     problems = []
     try:
         r = Z.db_create(zd, day, force=True)
-        if not Z.cli_ok(r) or wlp.read_text().split("\n") != ["w.zo"]:
-            raise H.HarnessError("lifecycle setup failed")
+        wl0 = wlp.read_text().split("\n") if wlp.exists() else None
+        if not Z.cli_ok(r) or wl0 != ["w.zo"]:
+            out.ok = False
+            out.sig = "command:force-create-did-not-whitelist-exactly-the-broken-page"
+            out.detail = {"broken_page": "w.zo", "whitelist": wl0, "exit_ok": Z.cli_ok(r), "stderr": r.err[-300:]}
+            out.obs = H.digest([Z.cli_ok(r), wl0])
+            return out
         # 1. still broken, edited: accepted because whitelisted, flagged, no notes
         (zd / "w.zo").write_text(BROKEN + "- 240104#0E one more\n")
         r = run()
